@@ -15,6 +15,10 @@ Variable C : Type.
 Variable rp : bool.
 Notation node := (value C).
 
+(* the Typename node of a type name made of simple specifiers *)
+Definition tdC (vs: list str) : node := VNode C_TypeDecl [VNone; VList []; VNone; VNode C_IdentifierType [VList (map (fun v => VStr v) vs)] None] None.
+Definition tnC (vs: list str) : node := VNode C_Typename [VNone; VList []; VNone; tdC vs] None.
+
 Fixpoint embC (e: ex) : node :=
   match e with
   | XId a => VNode C_ID [VStr a] None
@@ -29,6 +33,8 @@ Fixpoint embC (e: ex) : node :=
   | XCond c t f => VNode C_TernaryOp [embC c; embC t; embC f] None
   | XAsg o l r => VNode C_Assignment [VStr o; embC l; embC r] None
   | XComma es => VNode C_ExprList [VList (map embC es)] None
+  | XCast ty x => VNode C_Cast [tnC (map snd ty); embC x] None
+  | XSizeofT ty => VNode C_UnaryOp [VStr (s2l "sizeof"); tnC (map snd ty)] None
   end.
 
 Definition vxt (e: ex) (t: str) : str := if iscomma e then par t else t.       (* _visit_expr *)
@@ -49,6 +55,8 @@ Fixpoint ptext (e: ex) : str :=
   | XCond c t f => s "(" ++ vxt c (ptext c) ++ s ") ? (" ++ vxt t (ptext t) ++ s ") : (" ++ vxt f (ptext f) ++ s ")"
   | XAsg o l r => ptext l ++ s " " ++ o ++ s " " ++ (if isasg r then par (ptext r) else vxt r (ptext r))
   | XComma es => join_str (s ", ") (map (fun a => vxt a (ptext a)) es)
+  | XCast ty x => s "(" ++ join_str (s " ") (map snd ty) ++ s ")" ++ s " " ++ wrapt x (ptext x)
+  | XSizeofT ty => s "sizeof(" ++ join_str (s " ") (map snd ty) ++ s ")"
   end.
 
 (* ---- one-step equations of the generator model (by computation against Generator.v) ---- *)
@@ -88,6 +96,27 @@ Lemma visit_asg : forall f o l r co,
   gbind (visit_expr C rp f r) (fun rs => gbind (visit C rp f l) (fun ls =>
   gret (ls ++ s " " ++ o ++ s " " ++ (if is_c C C_Assignment r then s "(" ++ rs ++ s ")" else rs)))).
 Proof. reflexivity. Qed.
+Lemma visit_cast : forall f tt e co,
+  visit C rp (S f) (VNode C_Cast [tt; e] co) =
+  gbind (generate_type C rp f tt [] false) (fun t => gbind (paren_unless_simple C rp f e) (fun x => gret (s "(" ++ t ++ s ")" ++ s " " ++ x))).
+Proof. reflexivity. Qed.
+
+Lemma strs_of_strs : forall vs (st: Z), strs_of C (map (fun v => VStr v) vs) st = GOk (vs, st).
+Proof. induction vs as [|v vs IH]; intros st; [reflexivity|]. cbn [map strs_of]. unfold gbind. rewrite IH. reflexivity. Qed.
+
+(* _generate_type on such a Typename (emit_declname either way), and visit_Typename: the names joined by blanks *)
+Lemma gen_td : forall f vs em st, generate_type C rp (S (S f)) (tdC vs) [] em st = GOk (join_str (s " ") vs, st).
+Proof.
+  intros f vs em st.
+  change (generate_type C rp (S (S f)) (tdC vs) [] em st) with
+    (gbind (join_strs C (s " ") (VList (map (fun v => VStr v) vs))) (fun ts0 => gret (ts0 ++ [])) st).
+  unfold gbind at 1. unfold join_strs, join_list. unfold gbind at 1. rewrite strs_of_strs. unfold gret. rewrite app_nil_r. reflexivity.
+Qed.
+Lemma gen_tn : forall f vs em st, generate_type C rp (S (S (S f))) (tnC vs) [] em st = GOk (join_str (s " ") vs, st).
+Proof. intros f vs em st. change (generate_type C rp (S (S (S f))) (tnC vs) [] em st) with (generate_type C rp (S (S f)) (tdC vs) [] em st). apply gen_td. Qed.
+Lemma visit_tn : forall f vs st, visit C rp (S (S (S f))) (tnC vs) st = GOk (join_str (s " ") vs, st).
+Proof. intros f vs st. change (visit C rp (S (S (S f))) (tnC vs) st) with (generate_type C rp (S (S f)) (tdC vs) [] true st). apply gen_td. Qed.
+
 Lemma pus_eq : forall f n, paren_unless_simple C rp (S f) n =
   gbind (visit_expr C rp f n) (fun x => if is_simple C n then gret x else gret (s "(" ++ x ++ s ")")).
 Proof. reflexivity. Qed.
@@ -122,6 +151,8 @@ Proof.
   - cbn [simple orb keepLx embC]. change (is_c C C_BinaryOp (VNode C_TernaryOp [embC l1; embC l2; embC l3] None)) with false. rewrite andb_false_r. reflexivity.
   - cbn [simple orb keepLx embC]. change (is_c C C_BinaryOp (VNode C_Assignment [VStr o0; embC l1; embC l2] None)) with false. rewrite andb_false_r. reflexivity.
   - cbn [simple orb keepLx embC]. change (is_c C C_BinaryOp (VNode C_ExprList [VList (map embC es)] None)) with false. rewrite andb_false_r. reflexivity.
+  - cbn [simple orb keepLx embC]. change (is_c C C_BinaryOp (VNode C_Cast [tnC (map snd ty); embC l] None)) with false. rewrite andb_false_r. reflexivity.
+  - cbn [simple orb keepLx embC]. change (is_c C C_BinaryOp (VNode C_UnaryOp [VStr (s2l "sizeof"); tnC (map snd ty)] None)) with false. rewrite andb_false_r. reflexivity.
 Qed.
 Lemma cond_right_x : forall o r st, prec_lookup_s o <> None -> wf r ->
   GenBinop.cond C rp o true (embC r) st = GOk (negb (simple r || keepRx rp o r), st).
@@ -139,6 +170,8 @@ Proof.
   - cbn [simple orb keepRx embC]. change (is_c C C_BinaryOp (VNode C_TernaryOp [embC l1; embC l2; embC l3] None)) with false. rewrite andb_false_r. reflexivity.
   - cbn [simple orb keepRx embC]. change (is_c C C_BinaryOp (VNode C_Assignment [VStr o0; embC l1; embC l2] None)) with false. rewrite andb_false_r. reflexivity.
   - cbn [simple orb keepRx embC]. change (is_c C C_BinaryOp (VNode C_ExprList [VList (map embC es)] None)) with false. rewrite andb_false_r. reflexivity.
+  - cbn [simple orb keepRx embC]. change (is_c C C_BinaryOp (VNode C_Cast [tnC (map snd ty); embC l] None)) with false. rewrite andb_false_r. reflexivity.
+  - cbn [simple orb keepRx embC]. change (is_c C C_BinaryOp (VNode C_UnaryOp [VStr (s2l "sizeof"); tnC (map snd ty)] None)) with false. rewrite andb_false_r. reflexivity.
 Qed.
 
 (* the spelling of a prefix operator is not one of the three special op strings of UnaryOp *)
@@ -190,7 +223,7 @@ Proof.
                forall a, In a l -> visit C rp f (embC a) st = GOk (ptext a, st)).
   { intros l f Hwl Hs Hfl a Ha. pose proof (in_sum l a Ha) as Hsa. apply IH; [lia| |lia].
     exact (proj1 (Forall_forall _ _) (wfl_Forall l Hwl) a Ha). }
-  destruct e as [a|k v ty|o l r|o x|o x|o x|x|b i|b ty fld|b args|c t f|o l r|es]; cbn [size] in Hn, Hf; cbn [wf] in Hw.
+  destruct e as [a|k v ty|o l r|o x|o x|o x|x|b i|b ty fld|b args|c t f|o l r|es|ty x|ty]; cbn [size] in Hn, Hf; cbn [wf] in Hw.
   - destruct fuel as [|fu]; [lia|]. reflexivity.
   - destruct fuel as [|fu]; [lia|]. reflexivity.
   - destruct Hw as (Ho & Hl & Hr). destruct fuel as [|[|[|fu]]]; try lia. cbn [embC]. rewrite visit_binop.
@@ -242,6 +275,10 @@ Proof.
   - destruct Hw as (Hlen & Hes). destruct fuel as [|[|fu]]; try lia.
     cbn [embC]. rewrite visit_exprlist. unfold gbind at 1.
     rewrite (mapM_vexpr fu es st); [reflexivity|]. apply (IHl es fu Hes); lia.
+  - destruct Hw as (_ & Hx). pose proof (size_pos x) as Hpx. destruct fuel as [|[|[|[|[|fu]]]]]; try lia. cbn [embC]. rewrite visit_cast.
+    unfold gbind at 1. rewrite gen_tn. unfold gbind at 1. rewrite (pus_emb (S (S fu)) x (ptext x) st) by (apply IH; [lia|exact Hx|lia]). reflexivity.
+  - destruct fuel as [|[|[|[|[|[|fu]]]]]]; try lia. cbn [embC]. rewrite visit_un_raw. change (str_eqb (s2l "sizeof") (s "sizeof")) with true. cbv iota.
+    unfold gbind at 1. rewrite visit_tn. reflexivity.
 Qed.
 End GX.
 
@@ -267,7 +304,9 @@ Proof.
   destruct (punct_kind_l o) as [k|]; [exists k; reflexivity|discriminate Hk].
 Qed.
 
-(* identifiers and constants are spelled without blanks *)
+Definition spell0 (l: list (kind * str)) : str := concat (map snd l).
+
+(* identifiers, constants and type keywords are spelled without blanks *)
 Fixpoint ids_nb (e: ex) : Prop :=
   match e with
   | XId a => despace a = a
@@ -280,6 +319,8 @@ Fixpoint ids_nb (e: ex) : Prop :=
   | XCond c t f => ids_nb c /\ ids_nb t /\ ids_nb f
   | XAsg _ l r => ids_nb l /\ ids_nb r
   | XComma es => (fix nl (l: list ex) : Prop := match l with [] => True | x :: r => ids_nb x /\ nl r end) es
+  | XCast ty x => despace (spell0 ty) = spell0 ty /\ ids_nb x
+  | XSizeofT ty => despace (spell0 ty) = spell0 ty
   end.
 Definition nbl (l: list ex) : Prop := (fix nl (l: list ex) : Prop := match l with [] => True | x :: r => ids_nb x /\ nl r end) l.
 Lemma nbl_Forall : forall l, nbl l -> Forall ids_nb l.
@@ -309,6 +350,14 @@ Proof.
   rewrite IH, Htk. reflexivity.
 Qed.
 
+(* names joined by blanks: the blanks go *)
+Lemma despace_join_blank : forall vs, despace (join_str (s " ") vs) = despace (concat vs).
+Proof.
+  induction vs as [|v vs IH]; [reflexivity|]. destruct vs as [|v2 vs2]; [cbn [join_str concat]; rewrite app_nil_r; reflexivity|].
+  change (join_str (s " ") (v :: v2 :: vs2)) with (v ++ s " " ++ join_str (s " ") (v2 :: vs2)).
+  change (concat (v :: v2 :: vs2)) with (v ++ concat (v2 :: vs2)). rewrite !despace_app, IH. reflexivity.
+Qed.
+
 (* the generated text, blanks removed, is the concatenation of the spellings of [xt rp e] *)
 Theorem ptext_tokens : forall rp n e, size e <= n -> wf e -> ids_nb e -> despace (ptext rp e) = spell (xt rp e).
 Proof.
@@ -319,7 +368,7 @@ Proof.
     change (list_sum (map size (x :: r))) with (size x + list_sum (map size r)) in Hs. cbn [map]. constructor.
     - apply vx_text. apply IH; [lia|exact Hwx|exact Hnx].
     - apply IHr; [exact Hwr|exact Hnr|lia]. }
-  destruct e as [a|k v ty|o l r|o x|o x|o x|x|b i|b ty fld|b args|c t f|o l r|es]; cbn [size] in Hsz; cbn [wf] in Hw; cbn [ids_nb] in Hn.
+  destruct e as [a|k v ty|o l r|o x|o x|o x|x|b i|b ty fld|b args|c t f|o l r|es|ty x|ty]; cbn [size] in Hsz; cbn [wf] in Hw; cbn [ids_nb] in Hn.
   - cbn. rewrite app_nil_r. exact Hn.
   - cbn. rewrite app_nil_r. exact Hn.
   - destruct Hw as (Ho & Hl & Hr). destruct Hn as (Hnl & Hnr). destruct (binop_punct o Ho) as [k Hk].
@@ -378,6 +427,14 @@ Proof.
     change (despace (s " ")) with (@nil N). cbn [app]. rewrite (punct_noblank o k Hk). change (spell [(opk o, o)]) with (o ++ []). rewrite app_nil_r.
     rewrite El. destruct (isasg r); [rewrite despace_par, spell_parkv, Er|rewrite (vx_text r _ _ Er)]; reflexivity.
   - destruct Hw as (Hlen & Hes). cbn [ptext xt]. apply join_text. apply IHl; [exact Hes|exact Hn|lia].
+  - destruct Hw as (_ & Hx). destruct Hn as (Hty & Hnx).
+    assert (Ex: despace (ptext rp x) = spell (xt rp x)) by (apply IH; [lia|exact Hx|exact Hnx]).
+    cbn [ptext xt]. rewrite !despace_app. change ((K_LPAREN, s2l "(") :: ?y) with ([(K_LPAREN, s2l "(")] ++ y). rewrite !spell_app.
+    change ((K_RPAREN, s2l ")") :: ?y) with ([(K_RPAREN, s2l ")")] ++ y). rewrite spell_app.
+    rewrite (wrap_text x _ _ Ex), (despace_join_blank (map snd ty)). unfold spell0 in Hty. change (spell ty) with (concat (map snd ty)). rewrite Hty. reflexivity.
+  - cbn [ptext xt]. rewrite !despace_app. change ((K_SIZEOF, s2l "sizeof") :: ?y) with ([(K_SIZEOF, s2l "sizeof")] ++ y). rewrite spell_app.
+    change ((K_LPAREN, s2l "(") :: ?y) with ([(K_LPAREN, s2l "(")] ++ y). rewrite !spell_app.
+    rewrite (despace_join_blank (map snd ty)). unfold spell0 in Hn. change (spell ty) with (concat (map snd ty)). rewrite Hn. reflexivity.
 Qed.
 
 (* ---- the theorems apply to something: `a[i].f = -b * (c ? d : e), g(1, (x, y))` ---- *)
